@@ -35,6 +35,11 @@ pub trait HashLike: Sized + Clone + core::fmt::Debug + PartialEq + Eq + Ord + co
     fn build_conv(_v: &HV, _which: u64) -> Option<Self> {
         None
     }
+    /// the array / length accessors describe the same content as the slice accessors
+    /// (tail of the arrays zero); None when consistent, else a description
+    fn accessors_inconsistent(&self) -> Option<String> {
+        None
+    }
 }
 
 macro_rules! impl_plain {
@@ -74,6 +79,24 @@ macro_rules! impl_plain {
             }
             fn text(&self) -> String {
                 crate::util::text_of(self)
+            }
+            fn accessors_inconsistent(&self) -> Option<String> {
+                let (a1, a2) = (self.block_hash_1_as_array(), self.block_hash_2_as_array());
+                let (l1, l2) = (self.block_hash_1_len(), self.block_hash_2_len());
+                let ok = l1 <= a1.len()
+                    && l2 <= a2.len()
+                    && l1 == self.block_hash_1().len()
+                    && l2 == self.block_hash_2().len()
+                    && a1[..l1] == *self.block_hash_1()
+                    && a2[..l2] == *self.block_hash_2()
+                    && a1[l1..].iter().all(|&c| c == 0)
+                    && a2[l2..].iter().all(|&c| c == 0)
+                    && self.block_size() as u64 == 3u64 << self.log_block_size();
+                if ok {
+                    None
+                } else {
+                    Some(format!("lengths {} / {}, arrays {:?} / {:?}, slices {:?} / {:?}, block size {} (log {})", l1, l2, a1, a2, self.block_hash_1(), self.block_hash_2(), self.block_size(), self.log_block_size()))
+                }
             }
             fn build_conv(v: &HV, which: u64) -> Option<Self> {
                 use std::any::Any;
